@@ -82,6 +82,7 @@ class Project:
                     f"Dependency loop detected {target_name} -> {dep}"
                 )
             self.dfs(dep, state)
+        state.remove(target_name)
 
     def check_target(self, target_name):
         state = set()
@@ -204,17 +205,23 @@ class TaskRunner:
         for target in target_list:
             project.check_target(target)
 
-        # Calculate all dependencies:
-        # TODO: make this understandable:
-        target_list = set.union(
-            *[project.dependencies(t) for t in target_list]
-        ).union(set(target_list))
+        # Calculate all dependencies, each target after its dependencies:
+        ordered_names = []
+
+        def visit(target_name):
+            if target_name in ordered_names:
+                return
+            for dep in sorted(project.get_target(target_name).dependencies):
+                visit(dep)
+            ordered_names.append(target_name)
+
+        for target_name in target_list:
+            visit(target_name)
 
         # Lookup actual targets:
         target_list = [
-            project.get_target(target_name) for target_name in target_list
+            project.get_target(target_name) for target_name in ordered_names
         ]
-        target_list.sort()
 
         self.logger.info(f"Target sequence: {target_list}")
 
